@@ -524,6 +524,7 @@ def verify_one(eng, key, ctx=None, timeout_ms=30000, alias=None):
     cs, _, _, _, _ = solve(eng, cov, 5000)
     if cs == "proved":
         res.vacuous = True
+    unproved = 0
     for ob in ex.obligations:
         # short attempts with different seeds first (a query that needs the whole budget is an unstable one)
         # 1. E-matching only (fails fast);  2. model-based quantifier instantiation;  3. other seeds
@@ -539,6 +540,11 @@ def verify_one(eng, key, ctx=None, timeout_ms=30000, alias=None):
             plan.append((min(timeout_ms, 10000), 0, True, reach))
         plan += [(min(timeout_ms, 10000), 0, True, None), (min(timeout_ms, 10000), 7, False, None),
                  (timeout_ms, 13, True, None)]
+        curtailed = unproved >= 2
+        if curtailed:
+            # two obligations of this function are already unproved after the whole plan: the function is reported
+            # anyway; the remaining ones get the quick attempts only (keeps a failing check from taking many minutes)
+            plan = plan[:2]
         for tmo, seed, mbqi, hyps in plan:
             status, d, reason, model, _ = solve(eng, ob, tmo, seed=seed, mbqi=mbqi, pc=hyps)
             dt += d
@@ -551,8 +557,11 @@ def verify_one(eng, key, ctx=None, timeout_ms=30000, alias=None):
                 break
             if seed == 0 and mbqi and not ("timeout" in reason or "canceled" in reason):
                 break
+        if status != "proved":
+            unproved += 1
         res.obligations.append({"name": ob.name, "status": status, "time": round(dt, 3), "line": ob.line,
                                 "kind": ob.kind, "backend": backend,
-                                "reason": reason, "size": len(ob.pc)})
+                                "reason": reason, "size": len(ob.pc),
+                                **({"curtailed": True} if curtailed and status != "proved" else {})})
     res._ex = ex
     return res
